@@ -1,6 +1,7 @@
 package checks
 
 import (
+	"os"
 	"fmt"
 	"path/filepath"
 	"sort"
@@ -140,11 +141,23 @@ func c17Gen(c *engine.C) engine.Case {
 		filters, selected = []string{".py", ".go"}, false
 	}
 	src := sb.String()
+	// the source file is a symbolic link to a file kept elsewhere (under a name no filter selects)
+	linked := c.Bool("file-is-a-symlink")
 	return func() engine.Result {
 		files := []FileSpec{{Path: filepath.Join("src", name), Content: src}}
-		res := engine.Result{InputKey: name + "|" + strings.Join(filters, ",") + "|" + src, Input: map[string]interface{}{"file": name, "filters": filters, "content": src}}
+		if linked {
+			files = []FileSpec{{Path: "store/original.data", Content: src}}
+		}
+		res := engine.Result{InputKey: name + "|" + strings.Join(filters, ",") + "|" + src + fmt.Sprint(linked), Input: map[string]interface{}{"file": name, "filters": filters, "content": src, "file_is_a_symlink": linked}}
 		root, cleanup := materialise(files)
 		defer cleanup()
+		if linked {
+			os.MkdirAll(filepath.Join(root, "src"), 0o755)
+			if err := os.Symlink(filepath.Join("..", "store", "original.data"), filepath.Join(root, "src", name)); err != nil {
+				res.Skipped = "symlink: " + err.Error()
+				return res
+			}
+		}
 		if !selected {
 			for _, w := range wants {
 				w.Required = false
